@@ -3,6 +3,7 @@ Decode-encode direction, part 15: what a factory (`deserialize` at an abstract t
 the discriminator values of the class it picked.
 -/
 import SymbolVerif.Proofs.Codec.DedStep
+import SymbolVerif.Proofs.Codec.DedMono
 namespace SymbolVerif.Codec
 open SymbolVerif.Bytes
 
@@ -45,7 +46,6 @@ variable {S : Schema} {T : String → Bytes → Bytes} {r : Rec}
     class over the same buffer: the discriminator values seen by the factory are those of the object -/
 theorem header_disc {da dc : StructDef} (hdn : allDistinct (dc.fields.map (·.name)) = true)
     (hbase : da.base = none) (htake : dc.fields.take dc.inherited = da.fields)
-    (hearly : earlyFrom [] dc.fields = true)
     (hcarry : ∀ m ∈ da.disc, ∃ gk, lookupField da.fields m = some gk ∧ gk.kind.carries = true)
     {buf : Bytes} {sth stc : DecState} (hh : decFields S T r da da.fields buf = .ok sth)
     (hc : decFields S T r dc dc.fields buf = .ok stc)
@@ -64,14 +64,7 @@ theorem header_disc {da dc : StructDef} (hdn : allDistinct (dc.fields.map (·.na
   rw [hh] at hm
   simp only [Except.ok.injEq] at hm
   subst hm
-  have hearly' : earlyFrom [] (da.fields ++ dc.fields.drop dc.inherited) = true := by rw [← hsplit]; exact hearly
-  have hrunh := (drun_from (S := S) (T := T) (r := r) hdn dc da.fields [] (dc.fields.drop dc.inherited) _ sth 0
-    (by simpa using hsplit) (by simpa using hearly') (DRun.init S T r buf) (by
-      rw [decFrom_congr (S := S) (T := T) (r := r) dc da da.fields 0 _ (fun i st' _ hi => by
-        rw [rebase_no_base da hbase, rebase_before dc st' (by omega)])]
-      exact hh)).1
-  obtain ⟨-, ext, hext⟩ := drun_from (S := S) (T := T) (r := r) hdn dc (dc.fields.drop dc.inherited) da.fields [] sth stc _
-    (by simpa using hsplit) (by simpa using earlyFrom_append da.fields [] _ hearly') (by simpa using hrunh) hown
+  obtain ⟨ext, hext⟩ := decFrom_env (S := S) (T := T) (r := r) dc _ _ _ _ hown
   apply discMatch_of_env da.disc vals hdisc
   intro m hm i hi
   obtain ⟨gk, hl, hcar⟩ := hcarry m hm
